@@ -242,6 +242,8 @@ struct Walk<'a> {
     seen: HashSet<ObjectId>,
     /// every object that belongs to the outline (root, items, action dictionaries)
     parts: HashSet<ObjectId>,
+    /// failures that do not stop the walk (the title of one item does not influence the rest of the contract)
+    soft: Vec<Fail>,
 }
 
 impl<'a> Walk<'a> {
@@ -289,8 +291,8 @@ impl<'a> Walk<'a> {
                         }
                     }
                     let raw_ok = String::from_utf8(tb.clone()).map(|s| &s == want).unwrap_or(false);
-                    let ob = if raw_ok { "item-title-pdfdocencoding" } else { "item-title" };
-                    return fail(ob, format!("item {:?}: /Title bytes {} read as a PDF text string give {:?}, the bookmark title is {:?}", cur, hex(&tb), got.map(|s| s.escape_debug().to_string()), self.esc(b)));
+                    let detail = format!("item {:?}: /Title bytes {} read as a PDF text string give {:?}, the bookmark title is {:?}", cur, hex(&tb), got.map(|s| s.escape_debug().to_string()), self.esc(b));
+                    if raw_ok { self.soft.push(("item-title-pdfdocencoding".to_string(), detail)); } else { return fail("item-title", detail); }
                 }
             }
             // destination
@@ -330,13 +332,15 @@ impl<'a> Walk<'a> {
     }
 }
 
-fn check_structure(doc: &Document, root: ObjectId, case: &Case, m: &Model, page_ids: &[ObjectId]) -> Result<HashSet<ObjectId>, Fail> {
-    let mut w = Walk { doc, case, m, page_ids, seen: HashSet::new(), parts: HashSet::new() };
+fn check_structure(doc: &Document, root: ObjectId, case: &Case, m: &Model, page_ids: &[ObjectId], soft: &mut Vec<Fail>) -> Result<HashSet<ObjectId>, Fail> {
+    let mut w = Walk { doc, case, m, page_ids, seen: HashSet::new(), parts: HashSet::new(), soft: vec![] };
     w.parts.insert(root);
     let rd = dict_at(doc, root, "outline root")?;
     if rd.has(b"Parent") || rd.has(b"Prev") || rd.has(b"Next") { return fail("first-last", format!("outline root has sibling/parent links: {:?}", rd)); }
     let roots = m.roots.clone();
-    w.level(root, &roots, true)?;
+    let r = w.level(root, &roots, true);
+    soft.append(&mut w.soft);
+    r?;
     Ok(w.parts)
 }
 
@@ -364,7 +368,7 @@ fn objects_same(before: &BTreeMap<ObjectId, Object>, after: &BTreeMap<ObjectId, 
 }
 
 /// the whole contract for one case; Ok(nontrivial)
-fn check_case(c: &Case, stage: &Cell<&'static str>) -> Result<bool, Fail> {
+fn check_case(c: &Case, stage: &Cell<&'static str>, soft: &mut Vec<Fail>) -> Result<bool, Fail> {
     let m = match model(c) { Ok(m) => m, Err(e) => return fail("malformed-input", e) };
     if !m.in_family { return Ok(false); }
     let (mut doc, page_ids, cat) = base(c.layout, c.pages);
@@ -411,7 +415,7 @@ fn check_case(c: &Case, stage: &Cell<&'static str>) -> Result<bool, Fail> {
     if before.contains_key(&root) || !doc.objects.contains_key(&root) { return fail("fresh-id", format!("outline root {:?} is not a new object", root)); }
     // 5. structure
     stage.set("structure walk");
-    let parts = check_structure(&doc, root, c, &m, &page_ids)?;
+    let parts = check_structure(&doc, root, c, &m, &page_ids, soft)?;
     for p in &parts { if before.contains_key(p) { return fail("fresh-id", format!("outline part {:?} reuses an old identifier", p)); } }
     // 6. read back
     stage.set("get_toc");
@@ -429,7 +433,9 @@ fn check_case(c: &Case, stage: &Cell<&'static str>) -> Result<bool, Fail> {
         _ => return fail("reloaded:outline-returned", "catalog missing after reload".into()),
     };
     if root2 != root { return fail("reloaded:outline-returned", format!("Outlines is {:?} after reload, was {:?}", root2, root)); }
-    check_structure(&re, root2, c, &m, &page_ids).map_err(|(o, d)| (format!("reloaded:{}", o), d))?;
+    let mut again = vec![];
+    check_structure(&re, root2, c, &m, &page_ids, &mut again).map_err(|(o, d)| (format!("reloaded:{}", o), d))?;
+    if again.len() != soft.len() { return fail("reloaded:item-title", format!("{} titles differ from their PDF text-string reading after reload, {} before", again.len(), soft.len())); }
     stage.set("reloaded get_toc");
     check_toc(&re, c, &m, "toc-reloaded")?;
     Ok(true)
@@ -440,15 +446,22 @@ const OBLIGATIONS: &[&str] = &[
     "no-shared-items", "dangling-link", "object-kind", "sibling-order", "item-title", "item-title-pdfdocencoding", "dest-page", "toc-memory", "save-ok", "load-ok", "reloaded:structure", "toc-reloaded",
 ];
 
-fn run_case(c: &Case) -> Result<bool, Fail> {
+/// (nontrivial, failures); at most one hard failure (it ends the case), any number of soft ones
+fn run_case(c: &Case) -> (bool, Vec<Fail>) {
     let stage = Cell::new("model");
-    match std::panic::catch_unwind(std::panic::AssertUnwindSafe(|| check_case(c, &stage))) {
-        Ok(r) => r,
+    let mut soft = vec![];
+    let r = std::panic::catch_unwind(std::panic::AssertUnwindSafe(|| check_case(c, &stage, &mut soft)));
+    let mut fails = soft;
+    let nt = match r {
+        Ok(Ok(nt)) => nt,
+        Ok(Err(f)) => { fails.push(f); true }
         Err(e) => {
             let msg = if let Some(s) = e.downcast_ref::<String>() { s.clone() } else if let Some(s) = e.downcast_ref::<&str>() { s.to_string() } else { "panic".to_string() };
-            fail("no-panic", format!("panic during {}: {}", stage.get(), msg))
+            fails.push(("no-panic".to_string(), format!("panic during {}: {}", stage.get(), msg)));
+            true
         }
-    }
+    };
+    (nt, fails)
 }
 
 // ---------------------------------------------------------------------------------------------------------------
@@ -464,7 +477,7 @@ fn alphabet() -> Vec<String> {
         "Chapter 1".into(),
         "a(b\\c)d".into(),
         ")(".into(),
-        "((".into(),
+        "\u{18}\u{1f}".into(),                 // ASCII controls whose PDFDocEncoding meaning is a diacritic
         "line\r\nbreak\ttab\rcr\nlf".into(),
         "\\".into(),
         "\u{0}".into(),
@@ -524,20 +537,32 @@ fn rotate_titles(alpha: &[String], idx: usize, n: usize) -> Vec<String> {
     (0..n).map(|k| alpha[(idx + 5 * k) % alpha.len()].clone()).collect()
 }
 
-fn family_shapes(thorough: bool) -> Vec<Case> {
-    let alpha = alphabet();
+/// a case of family A without its titles (they are a function of idx)
+#[derive(Clone, Copy)]
+struct Skel { layout: u8, pages: u8, n: u8, parents: [u8; 8], targets: [u8; 8], idx: u32 }
+
+fn skel_case(s: &Skel, alpha: &[String]) -> Case {
+    let n = s.n as usize;
+    Case { layout: s.layout, pages: s.pages, parents: s.parents[..n].to_vec(), targets: s.targets[..n].to_vec(), titles: rotate_titles(alpha, s.idx as usize, n) }
+}
+
+/// A: structure x pages x target assignment x layout
+fn family_shapes(thorough: bool) -> Vec<Skel> {
     let mut cases = vec![];
-    let mut idx = 0usize;
-    // A: structure x pages x layout
+    let mut idx = 0u32;
     let max_n = if thorough { 6 } else { 5 };
     for n in 0..=max_n {
         for parents in parent_seqs(n, false) {
             for pages in 1..=3u8 {
-                if n == 6 && pages == 3 { continue; }
-                let layouts: Vec<u8> = if n <= 4 || (thorough && n == 5) { (0..N_LAYOUTS).collect() } else if n == 5 { vec![(idx % N_LAYOUTS as usize) as u8] } else { vec![0, 1] };
+                if !thorough && n == 5 && pages == 3 { continue; }
+                let all_layouts = n <= 4 || (thorough && n == 5);
                 for targets in target_assignments(&parents, pages) {
+                    let layouts: Vec<u8> = if all_layouts { (0..N_LAYOUTS).collect() } else { vec![(idx % N_LAYOUTS as u32) as u8] };
                     for &layout in &layouts {
-                        cases.push(Case { layout, pages, parents: parents.clone(), targets: targets.clone(), titles: rotate_titles(&alpha, idx, n) });
+                        let mut s = Skel { layout, pages, n: n as u8, parents: [0; 8], targets: [0; 8], idx };
+                        s.parents[..n].copy_from_slice(&parents);
+                        s.targets[..n].copy_from_slice(&targets);
+                        cases.push(s);
                         idx += 1;
                     }
                 }
@@ -547,21 +572,44 @@ fn family_shapes(thorough: bool) -> Vec<Case> {
     cases
 }
 
-fn family_titles(thorough: bool) -> Vec<Case> {
-    // B: every ordered tuple of distinct alphabet titles on every forest of up to 3 bookmarks
+/// D: depth and fan-out far beyond A: 250 bookmarks as a chain, a star, a flat list, a binary tree and a comb
+fn family_extremes() -> Vec<Case> {
     let alpha = alphabet();
-    let a = alpha.len();
+    let n = 250usize;
+    let shapes: Vec<Vec<u8>> = vec![
+        (0..n).map(|k| k as u8).collect(),                                         // chain: bookmark k+1 under bookmark k
+        (0..n).map(|k| if k == 0 { 0 } else { 1 }).collect(),                       // star
+        vec![0; n],                                                                // flat
+        (0..n).map(|k| ((k + 1) / 2) as u8).collect(),                             // binary tree (heap numbering)
+        (0..n).map(|k| if k % 2 == 0 { (k as u8).saturating_sub(1) } else { k as u8 }).collect(), // comb: spine 1,3,5,.. each with one leaf
+    ];
     let mut cases = vec![];
-    let mut idx = 0usize;
+    for parents in &shapes {
+        let mut has_child = vec![false; n];
+        for &p in parents { if p != 0 { has_child[p as usize - 1] = true; } }
+        for zero in [false, true] {
+            for layout in 0..N_LAYOUTS {
+                let targets: Vec<u8> = (0..n).map(|k| if zero && has_child[k] { 0 } else { (k % 3) as u8 + 1 }).collect();
+                let titles: Vec<String> = (0..n).map(|k| { let a: String = alpha[k % alpha.len()].chars().take(12).collect(); format!("{}#{}", a, k) }).collect();
+                cases.push(Case { layout, pages: 3, parents: parents.clone(), targets, titles });
+            }
+        }
+    }
+    cases
+}
+
+/// B: every ordered tuple of distinct alphabet titles on every forest of up to 3 bookmarks: (parents, title indices, idx)
+fn family_titles() -> Vec<(Vec<u8>, Vec<u8>, u32)> {
+    let a = alphabet().len() as u8;
+    let mut cases = vec![];
+    let mut idx = 0u32;
     for n in 1..=3usize {
         for parents in parent_seqs(n, false) {
-            let mut tuple = vec![0usize; n];
+            let mut tuple = vec![0u8; n];
             'tuples: loop {
                 let distinct = (0..n).all(|i| (0..i).all(|j| tuple[i] != tuple[j]));
                 if distinct {
-                    let pages = if thorough { 3 } else { 2 };
-                    let targets: Vec<u8> = (0..n).map(|k| ((idx + k) % pages as usize) as u8 + 1).collect();
-                    cases.push(Case { layout: (idx % N_LAYOUTS as usize) as u8, pages, parents: parents.clone(), targets, titles: tuple.iter().map(|&t| alpha[t].clone()).collect() });
+                    cases.push((parents.clone(), tuple.clone(), idx));
                     idx += 1;
                 }
                 let mut i = 0;
@@ -576,6 +624,14 @@ fn family_titles(thorough: bool) -> Vec<Case> {
         }
     }
     cases
+}
+
+fn titles_case(t: &(Vec<u8>, Vec<u8>, u32), alpha: &[String]) -> Case {
+    let (parents, tuple, idx) = t;
+    let n = parents.len();
+    let pages = 2u8;
+    let targets: Vec<u8> = (0..n).map(|k| ((*idx as usize + k) % pages as usize) as u8 + 1).collect();
+    Case { layout: (idx % N_LAYOUTS as u32) as u8, pages, parents: parents.clone(), targets, titles: tuple.iter().map(|&t| alpha[t as usize].clone()).collect() }
 }
 
 fn family_orphans() -> Vec<Case> {
@@ -595,33 +651,60 @@ fn family_orphans() -> Vec<Case> {
     cases
 }
 
-const SWEEP_BLOCK: u32 = 64;
-
 fn scalar_at(i: u32) -> char { char::from_u32(if i < 0xD800 { i } else { i + 0x800 }).unwrap() }
 const N_SCALARS: u32 = 0x110000 - 0x800;
+const N_BMP: u32 = 0x10000 - 0x800;
 
-/// C: one document per block of 64 consecutive Unicode scalar values; each value c gives two bookmarks, titled "c" and "[c]"
-fn sweep_case(block: u32) -> Case {
+/// C: one document of 128 bookmarks (depth 3, zero-page parents) per block of consecutive Unicode scalar values
+#[derive(Clone, Copy)]
+enum Sweep {
+    /// 64 scalar values starting at 64*block (index without the surrogates); each value c gives the titles "c" and "[c]"
+    Pair(u32),
+    /// 512 astral scalar values starting at N_BMP + 512*block; each title is 4 consecutive values
+    Quad(u32),
+}
+
+fn sweep_case(sw: &Sweep) -> Case {
     let mut titles = vec![];
-    for i in 0..SWEEP_BLOCK {
-        let s = block * SWEEP_BLOCK + i;
-        if s >= N_SCALARS { break; }
-        let c = scalar_at(s);
-        titles.push(c.to_string());
-        titles.push(format!("[{}]", c));
-    }
+    let block = match *sw {
+        Sweep::Pair(block) => {
+            for i in 0..64 {
+                let c = scalar_at(block * 64 + i);
+                titles.push(c.to_string());
+                titles.push(format!("[{}]", c));
+            }
+            block
+        }
+        Sweep::Quad(block) => {
+            for i in 0..128 {
+                let s0 = N_BMP + block * 512 + i * 4;
+                titles.push((0..4).map(|j| scalar_at(s0 + j)).collect::<String>());
+            }
+            block
+        }
+    };
     let n = titles.len();
     let pages = 3u8;
     let mut parents = vec![];
     let mut targets = vec![];
     for j in 0..n {
         let head = j - j % 8;
-        let has_more = head + 1 < n;
         parents.push(match j % 8 { 0 => 0u8, 4 | 5 => j as u8, _ => head as u8 + 1 });
-        // heads of every other group are zero-page parents (when they do get a child); bookmark j%8==3 and 4 have a child too
-        targets.push(if j % 16 == 0 && has_more { 0 } else { (j % pages as usize) as u8 + 1 });
+        // the heads of every other group of 8 are zero-page parents; within a group bookmarks 1, 4 and 5 have children
+        targets.push(if j % 16 == 0 { 0 } else { (j % pages as usize) as u8 + 1 });
     }
     Case { layout: (block % N_LAYOUTS as u32) as u8, pages, parents, targets, titles }
+}
+
+fn sweep_items(thorough: bool) -> Vec<Sweep> {
+    let mut v = vec![];
+    if thorough {
+        for b in 0..N_SCALARS / 64 { v.push(Sweep::Pair(b)); }
+    } else {
+        for b in 0..N_BMP / 64 { v.push(Sweep::Pair(b)); }
+        for b in 0..(N_SCALARS - N_BMP) / 512 { v.push(Sweep::Quad(b)); }
+    }
+    v
 }
 
 pub fn case_json(c: &Case) -> Value {
@@ -641,57 +724,67 @@ fn describe(c: &Case) -> String {
     format!("layout={} pages={} parents={:?} targets={:?} titles={:?}{}", c.layout, c.pages, &c.parents[..c.parents.len().min(12)], &c.targets[..c.targets.len().min(12)], t, if c.titles.len() > 6 { " ..." } else { "" })
 }
 
-fn evaluate(rep: &mut Report, cases: &[Case], sample_every: usize) {
-    for chunk in cases.chunks(1 << 16) {
-        let res: Vec<Result<bool, Fail>> = chunk.par_iter().map(run_case).collect();
-        for (c, r) in chunk.iter().zip(res) {
-            match r {
-                Ok(nt) => { rep.case(nt); if rep.evaluations as usize % sample_every == 1 { rep.sample(describe(c)); } }
-                Err((ob, d)) => { rep.case(true); rep.fail(&ob, d.clone(), case_json(c), d); }
-            }
+fn evaluate<T: Sync>(rep: &mut Report, items: &[T], make: impl Fn(&T) -> Case + Sync, sample_every: usize) {
+    for chunk in items.chunks(1 << 16) {
+        let res: Vec<(bool, Vec<Fail>, Option<Value>, Option<String>)> = chunk.par_iter().enumerate().map(|(i, t)| {
+            let c = make(t);
+            let (nt, fails) = run_case(&c);
+            let input = if fails.is_empty() { None } else { Some(case_json(&c)) };
+            let sample = if fails.is_empty() && i % sample_every == sample_every / 2 { Some(describe(&c)) } else { None };
+            (nt, fails, input, sample)
+        }).collect();
+        for (nt, fails, input, sample) in res {
+            rep.case(nt);
+            if let Some(s) = sample { rep.sample(s); }
+            for (ob, d) in fails { rep.fail(&ob, d.clone(), input.clone().unwrap_or(Value::Null), d); }
         }
     }
 }
 
+const BOUND_COMMON: &str = "B: every ordered tuple of distinct titles from a 23-title alphabet (empty, 1 character, delimiters, CR/LF, control characters, Latin-1, BMP, astral, noncharacters, characters whose UTF-16BE bytes are ( ) \\ CR LF, BOM character, combining sequence, 300 characters) on every forest of <=3 bookmarks; D: 250 bookmarks as chain / star / flat list / binary tree / comb x {all real pages, every parent a zero page} x 4 layouts; E: n<=4 calls where any call may name a parent handle that was never returned (the bookmark and everything below it is not part of the forest) x every target assignment, 2 pages. Layouts: dense ids + xref stream / sparse ids with page ids opposite to page order and max_id slack / nested page tree with non-zero generations / base document loaded from a file. Each case: add_bookmark calls, adjust_zero_pages, build_outline, model-driven walk of the object graph (First Last Next Prev Parent Title A/D, fresh ids), /Outlines installed, get_toc, save_to, load_mem, walk and get_toc again. Not covered: children lists written directly into Bookmark.children (cycles, shared nodes), max_id below an existing object id, duplicate titles, zero-page leaves";
+
 pub fn run(thorough: bool) -> Report {
     let bound = if thorough {
-        "A: every sequence of n<=6 add_bookmark calls (call k attaches to the top level or to any of the k-1 earlier bookmarks: n! sequences = every ordered forest in every attachment order) x documents of 1..3 pages (1..2 for n=6) x every target assignment (each bookmark: any page, or the zero page if it has a child) x 4 document layouts (dense ids+xref stream / sparse ids, reversed page ids, max_id slack / nested page tree with non-zero generations / loaded from a file; n=6: first two layouts), titles rotated through a 23-title alphabet; B: every ordered tuple of distinct titles of the 23-title alphabet (empty, 1 char, delimiters, CR/LF, controls, Latin-1, BMP, astral, noncharacters, UTF-16 bytes equal to ( ) \\ CR LF, BOM, 300 chars) on every forest of <=3 bookmarks; C: every Unicode scalar value c (1,112,064) as title \"c\" and \"[c]\" in 17,376 documents of 128 bookmarks (depth 3, zero-page parents); E: n<=4 calls where any call may name a parent handle that does not exist x every target assignment, 2 pages. Each case: adjust_zero_pages, build_outline, model-driven walk of the object graph, get_toc, save_to, load_mem, walk and get_toc again. Not covered: cyclic/shared children lists written directly into Bookmark.children, max_id below an existing object id, duplicate titles"
+        format!("A: every sequence of n<=6 add_bookmark calls (call k attaches to the top level or to any of the k-1 earlier bookmarks: n! sequences = every ordered forest in every attachment order) x documents of 1..3 pages x every target assignment (each bookmark: any page, or the zero page if it has a child) x 4 document layouts (n=6: one layout per case in rotation), titles rotated through the alphabet of B; C: every Unicode scalar value c (1,112,064) as the titles \"c\" and \"[c]\", 64 values per document of 128 bookmarks (depth 3, zero-page parents); {}", BOUND_COMMON)
     } else {
-        "A: every sequence of n<=5 add_bookmark calls (call k attaches to the top level or to any of the k-1 earlier bookmarks: n! sequences = every ordered forest in every attachment order) x documents of 1..3 pages x every target assignment (each bookmark: any page, or the zero page if it has a child) x 4 document layouts for n<=4 (dense ids+xref stream / sparse ids, reversed page ids, max_id slack / nested page tree with non-zero generations / loaded from a file; n=5: one layout per case in rotation), titles rotated through a 23-title alphabet; B: every ordered tuple of distinct titles of the 23-title alphabet (empty, 1 char, delimiters, CR/LF, controls, Latin-1, BMP, astral, noncharacters, UTF-16 bytes equal to ( ) \\ CR LF, BOM, 300 chars) on every forest of <=3 bookmarks; C: every Unicode scalar value c (1,112,064) as title \"c\" and \"[c]\" in 17,376 documents of 128 bookmarks (depth 3, zero-page parents); E: n<=4 calls where any call may name a parent handle that does not exist x every target assignment, 2 pages. Each case: adjust_zero_pages, build_outline, model-driven walk of the object graph, get_toc, save_to, load_mem, walk and get_toc again. Not covered: cyclic/shared children lists written directly into Bookmark.children, max_id below an existing object id, duplicate titles"
+        format!("A: every sequence of n<=5 add_bookmark calls (call k attaches to the top level or to any of the k-1 earlier bookmarks: n! sequences = every ordered forest in every attachment order) x documents of 1..3 pages (n=5: 1..2) x every target assignment (each bookmark: any page, or the zero page if it has a child) x 4 document layouts (n=5: one layout per case in rotation), titles rotated through the alphabet of B; C: every BMP scalar value c (63,488) as the titles \"c\" and \"[c]\", 64 values per document of 128 bookmarks (depth 3, zero-page parents), and every astral scalar value (1,048,576) inside a title of 4 consecutive values, 512 values per document; {}", BOUND_COMMON)
     };
-    let mut rep = Report::new(bound, true);
+    let mut rep = Report::new(&bound, true);
     rep.obligations = OBLIGATIONS.len() as u64;
     let _ = base(0, 1);
+    let alpha = alphabet();
     let prev = std::panic::take_hook();
     std::panic::set_hook(Box::new(|_| {}));
+    let timing = std::env::var("C17_TIMING").is_ok();
     let t0 = std::time::Instant::now();
-    let a = if std::env::var("C17_SKIPA").is_ok() { vec![] } else { family_shapes(thorough) };
-    evaluate(&mut rep, &a, 40_001);
-    eprintln!("A {} {:?}", a.len(), t0.elapsed());
+    let a = family_shapes(thorough);
+    evaluate(&mut rep, &a, |s| skel_case(s, &alpha), 20_001);
+    if timing { eprintln!("A {} {:?}", a.len(), t0.elapsed()); }
     drop(a);
-    let b = if std::env::var("C17_SKIPB").is_ok() { vec![] } else { family_titles(thorough) };
-    evaluate(&mut rep, &b, 20_001);
-    eprintln!("B {} {:?}", b.len(), t0.elapsed());
+    let b = family_titles();
+    evaluate(&mut rep, &b, |t| titles_case(t, &alpha), 30_001);
+    if timing { eprintln!("B {} {:?}", b.len(), t0.elapsed()); }
     drop(b);
+    let d = family_extremes();
+    evaluate(&mut rep, &d, |c| c.clone(), 1_000_000);
+    if timing { eprintln!("D {} {:?}", d.len(), t0.elapsed()); }
+    drop(d);
     let e = family_orphans();
-    evaluate(&mut rep, &e, 5_001);
-    eprintln!("E {} {:?}", e.len(), t0.elapsed());
+    evaluate(&mut rep, &e, |c| c.clone(), 2_001);
+    if timing { eprintln!("E {} {:?}", e.len(), t0.elapsed()); }
     drop(e);
-    let blocks = (N_SCALARS + SWEEP_BLOCK - 1) / SWEEP_BLOCK;
-    let blocks = if std::env::var("C17_SKIPC").is_ok() { 0 } else { blocks };
-    let c: Vec<Case> = (0..blocks).into_par_iter().map(sweep_case).collect();
-    evaluate(&mut rep, &c, 9_001);
-    eprintln!("C {} {:?}", c.len(), t0.elapsed());
+    let c = sweep_items(thorough);
+    evaluate(&mut rep, &c, sweep_case, 5_001);
+    if timing { eprintln!("C {} {:?}", c.len(), t0.elapsed()); }
     std::panic::set_hook(prev);
     rep
 }
 
 pub fn replay(v: &Value) -> Result<(), String> {
     let c = case_from_json(v)?;
-    let r = guarded(std::panic::AssertUnwindSafe(|| run_case(&c)));
-    match r {
-        Ok(Ok(_)) => Ok(()),
-        Ok(Err((ob, d))) => Err(format!("{}: {}", ob, d)),
+    match guarded(std::panic::AssertUnwindSafe(|| run_case(&c))) {
+        Ok((_, fails)) if fails.is_empty() => Ok(()),
+        Ok((_, fails)) => Err(fails.iter().map(|(ob, d)| format!("{}: {}", ob, d)).collect::<Vec<_>>().join(" ;; ")),
         Err(p) => Err(format!("no-panic: {}", p)),
     }
 }
